@@ -327,6 +327,24 @@ def sub_split(case):
         dts = (case["dts"] * n)[: n - 1]
     timed = kind != "path_distance"
     obj, P, Q, T = tagged(n, case["mode"], timed=timed, t0=float(case["t0"]), dts=dts if timed else None, P=P)
+    # optional history before the split: derived quantities read, then the trajectory reduced
+    pre = case.get("pre_history", [])
+    if "read" in pre:
+        obj.distances
+        obj.path_length
+    if "downsample" in pre and n >= 3:
+        keep = list(range(0, n, 2))
+        obj.reduce_to_ids(keep) if "ids" in pre else obj.downsample(len(keep))
+        ids = [int(round(v)) for v in (np.asarray(obj.timestamps) - float(case["t0"]))] if False else None
+        # identify the kept poses by position rows
+        lut = {tuple(r): i for i, r in enumerate(P.tolist())}
+        if len(lut) == n:
+            ids = [lut[tuple(r)] for r in np.asarray(obj.positions_xyz).tolist()]
+            P = P[ids]
+            Q = Q[ids]
+            n = len(ids)
+        else:
+            return "skipped_duplicate_positions"
     src_poses = [np.array(p) for p in obj.poses_se3]
     T = np.asarray(obj.timestamps) if timed else None
     steps_len = rm.step_lengths(P)
@@ -463,7 +481,8 @@ st_split = st.fixed_dictionaries({
     "kind": st.sampled_from(["time", "distance", "path_distance", "speed"]), "grid": st.booleans(),
     "isteps": st.lists(st.integers(0, 4), min_size=0, max_size=12), "idts": st.lists(st.sampled_from([1, 2, 4, 8]), min_size=0, max_size=12),
     "P": st_Pn, "mag": gen.log_uniform(-2, 3), "dts": st.lists(st.one_of(gen.fl(1e-3, 5.0), st.sampled_from([0.1, 1.0])), min_size=1, max_size=8),
-    "t0": st.sampled_from([0.0, 1.5e9]), "thr": st_thr, "mode": st.sampled_from(["pq", "se3"])})
+    "t0": st.sampled_from([0.0, 1.5e9]), "thr": st_thr, "mode": st.sampled_from(["pq", "se3"]),
+    "pre_history": st.sampled_from([[], [], ["read"], ["read", "downsample"], ["read", "downsample", "ids"], ["downsample"]])})
 st_merge = st.fixed_dictionaries({
     "trajs": st.lists(st.fixed_dictionaries({"ks": st.lists(st.integers(0, 30), min_size=1, max_size=12), "mode": st.sampled_from(["pq", "se3"])}),
                       min_size=1, max_size=6),
